@@ -9,6 +9,7 @@ CONSTANT NBs = {1, 2}
 CONSTANT Ss = {3, 4}
 CONSTANT Wrap = FALSE
 CONSTANT Guard = TRUE
+CONSTANT Walk = TRUE
 INIT Init
 NEXT Next
 CHECK_DEADLOCK FALSE
